@@ -229,6 +229,35 @@ func c14History(k *core.Case, decoded bool) {
 			k.Count("refused_setter_calls_in_histories", 1)
 			continue
 		}
+		if k.R.Chance(1, 5) {
+			// set again to a value that differs from the current one only by trailing 00 octets (another bit length,
+			// same 4-octet words)
+			for _, t := range []uint8{abs.ATRes, abs.ATKdfInput} {
+				cur, ok := final[t]
+				if !ok {
+					continue
+				}
+				v := append(abs.HB{}, cur...)
+				if len(v) > 0 && v[len(v)-1] == 0 && k.R.Bool() {
+					v = v[:len(v)-1]
+				} else {
+					v = append(v, 0)
+				}
+				if t == abs.ATRes && (len(v) < 4 || len(v) > 16) {
+					continue
+				}
+				var err error
+				pn := core.Try(func() { err = ap.SetAttr(eap.EapAkaPrimeAttrType(t), append([]byte{}, v...)) })
+				steps = append(steps, fmt.Sprintf("set-zero-extended(%d,%d)", t, len(v)))
+				if pn != nil || err != nil {
+					k.Violate("setter", "setattr-refused-legal-value", fmt.Sprint(err, pn), M{"steps": steps})
+					return
+				}
+				final[t] = v
+				k.Count("values_differing_only_by_trailing_zero_octets_set", 1)
+			}
+			continue
+		}
 		t := types[k.R.Intn(len(types))]
 		var v abs.HB
 		switch t {
@@ -339,7 +368,7 @@ func c14(c *core.Ctx) {
 	// histories on one EAP-AKA' object: attributes set, then set again with other sizes (also after a decode)
 	c.Family("aka-overwrite", c.N(6000, 600000), func(k *core.Case) { c14History(k, false) })
 	c.Family("aka-amend-decoded", c.N(6000, 600000), func(k *core.Case) { c14History(k, true) })
-	c.Require("aka_histories_fresh", "aka_histories_decoded", "refused_setter_calls_in_histories")
+	c.Require("aka_histories_fresh", "aka_histories_decoded", "refused_setter_calls_in_histories", "values_differing_only_by_trailing_zero_octets_set")
 	c.Family("methods", c.N(20000, 3000000), func(k *core.Case) {
 		e := gen.EAP(k.R)
 		c14One(k, e, "methods")
@@ -395,7 +424,7 @@ func accept(p, key []byte) (ok bool, why string, pn *core.Panic) {
 // packet as it was, so the code computed afterwards is still the transmitted one.
 func acceptAfter(p, key []byte, refusedCalls bool) (ok bool, why string, pn *core.Panic) {
 	pn = core.Try(func() {
-		le := new(eap.EAP)
+		le := usedEAP(hashBytes(p) >> 5)
 		if err := le.Unmarshal(p); err != nil {
 			why = "undecodable"
 			return
